@@ -200,7 +200,16 @@ func (g *c09Gen) callSite(dir string) []*mj.Node {
 			name = mj.Var(nm)
 			g.labels["include-name:"+g.p.Vars[nm].T] = true
 		}
-		out = append(out, &mj.Node{K: "include", E: name, Ctx: ctx()})
+		inc := &mj.Node{K: "include", E: name, Ctx: ctx()}
+		if inc.Ctx != nil && g.n(0, 2, "nameAndContextFromDot") == 0 {
+			// name and context are both read from the '.' the include statement stands in (a row that carries its
+			// template and its data): the name is not looked for in the context that is handed over
+			row := mj.Call("map", mj.Str("Tpl"), inc.E, mj.Str("Data"), inc.Ctx, mj.Str("Other"), mj.Call("map", mj.Str("Tpl"), mj.Str("/no/such.jet")))
+			inc.E, inc.Ctx = mj.Field("Tpl"), []*mj.Expr{mj.Field("Data"), mj.Field("Other")}[g.n(0, 1, "rowContextField")]
+			inc = &mj.Node{K: "range", E: mj.Call("slice", row), Body: []*mj.Node{inc}}
+			g.labels["include-name-and-context-from-dot"] = true
+		}
+		out = append(out, inc)
 	case k <= 5:
 		g.labels["call:exec"] = true
 		p, lv := g.callee(dir, true)
@@ -233,6 +242,11 @@ func (g *c09Gen) callSite(dir string) []*mj.Node {
 		args := []*mj.Expr{mj.Str("/no/such/" + g.id("tpl"))}
 		if c := ctx(); c != nil {
 			args = append(args, c)
+		} else if g.n(0, 1, "contextThatCannotBeEvaluated") == 0 {
+			// a context expression that fails when evaluated - which it is not, for a template that is not there
+			g.p.Vars["nomap"] = mj.Recipe{T: "nilmap"}
+			args = append(args, []*mj.Expr{mj.Chain(mj.Var("nomap"), "k", "deeper"), mj.Var("noSuchContextVariable"), mj.Call("pick")}[g.n(0, 1, "badContext")])
+			g.labels["includeIfExists-missing-with-a-context-that-would-fail"] = true
 		}
 		if g.n(0, 1, "iieAsCond") == 0 {
 			out = append(out, mj.If(mj.Call("includeIfExists", args...), []*mj.Node{mj.Text("(existed)")}, []*mj.Node{mj.Text("(missing)")}))
